@@ -17,9 +17,21 @@ from .model import Program, FuncInfo, ClassInfo, Module
 UNKNOWN = object()
 
 
+TRUTHY = 'an object that is true'
+
+
+def _is_truthy_marker(v) -> bool:
+    return v == TRUTHY or (isinstance(v, ast.Constant) and v.value == TRUTHY)
+
+
 class _Folder:
-    def __init__(self, prog: Program, fn: FuncInfo, env: Dict[str, ast.expr], depth: int = 0):
+    def __init__(self, prog: Program, fn: FuncInfo, env: Dict[str, ast.expr], depth: int = 0, stack: Tuple[str, ...] = (),
+                 assume: Optional[Dict[str, ast.expr]] = None):
         self.prog, self.fn, self.mod = prog, fn, fn.module
+        self.stack = stack + (fn.fq,)
+        self.assume = {k: v for k, v in (assume or {}).items() if not _is_truthy_marker(v)}
+        #                                     ^ source text of an expression on `self` -> the constant-like node it stands for
+        self.truthy = {k for k, v in (assume or {}).items() if _is_truthy_marker(v)}    # ... -> "some object that is true"
         self.env = dict(env)            # local name -> constant-like AST node (Constant, table display, record ctor call ...)
         self.preset = set(env)
         self.depth = depth
@@ -63,25 +75,50 @@ class _Folder:
                 return e        # a record object of the package built from constants / references
         return None
 
+    def _all_assumptions(self) -> Dict[str, Any]:
+        d: Dict[str, Any] = dict(self.assume)
+        d.update({k: TRUTHY for k in self.truthy})
+        return d
+
+    def truth(self, e: ast.expr) -> Optional[bool]:
+        """truthiness of a folded expression, when it is decided"""
+        if self.truthy and isinstance(e, (ast.Attribute, ast.Name)) and ast.unparse(e) in self.truthy:
+            return True
+        if isinstance(e, ast.Constant):
+            return bool(e.value)
+        if isinstance(e, (ast.Dict,)):
+            return bool(e.keys)
+        if isinstance(e, (ast.Tuple, ast.List, ast.Set)):
+            return bool(e.elts)
+        c = self.const_node(e)
+        if c is not None and not isinstance(c, (ast.Constant, ast.Dict, ast.Tuple, ast.List)):
+            return True         # an enum member, a function, a class, a record object
+        return None
+
     def fold(self, e: ast.expr) -> ast.expr:
         """`e` with everything foldable folded (a new tree where something changed)."""
+        if self.assume and isinstance(e, (ast.Attribute, ast.Name, ast.Call, ast.Subscript)):
+            key = ast.unparse(e)
+            if key in self.assume:
+                return ast.copy_location(copy.deepcopy(self.assume[key]), e)
         if isinstance(e, ast.Name) and isinstance(e.ctx, ast.Load) and e.id in self.env and \
                 isinstance(self.env[e.id], (ast.Constant, ast.Attribute, ast.Name)):
             return ast.copy_location(copy.deepcopy(self.env[e.id]), e)
         if isinstance(e, ast.UnaryOp) and isinstance(e.op, ast.Not):
             v = self.fold(e.operand)
-            if isinstance(v, ast.Constant):
-                return ast.copy_location(ast.Constant(value=not v.value), e)
+            if self.truth(v) is not None:
+                return ast.copy_location(ast.Constant(value=not self.truth(v)), e)
             return ast.copy_location(ast.UnaryOp(op=ast.Not(), operand=v), e)
         if isinstance(e, ast.BoolOp):
             vals = [self.fold(v) for v in e.values]
             out = []
             for v in vals:
-                if isinstance(v, ast.Constant):
-                    if isinstance(e.op, ast.And) and not v.value:
+                tv = self.truth(v)
+                if tv is not None:
+                    if isinstance(e.op, ast.And) and not tv:
                         return ast.copy_location(ast.Constant(value=False), e) if not out else \
                             ast.copy_location(ast.BoolOp(op=e.op, values=out + [v]), e)
-                    if isinstance(e.op, ast.Or) and v.value:
+                    if isinstance(e.op, ast.Or) and tv:
                         return ast.copy_location(ast.Constant(value=True), e) if not out else \
                             ast.copy_location(ast.BoolOp(op=e.op, values=out + [v]), e)
                     continue
@@ -99,6 +136,15 @@ class _Folder:
                          ast.IsNot: (ca.value is not cb.value) if cb.value is None or ca.value is None else ca.value != cb.value}
                 if type(op) in table:
                     return ast.copy_location(ast.Constant(value=bool(table[type(op)])), e)
+            if ca is not None and cb is not None and isinstance(op, (ast.Eq, ast.NotEq, ast.Is, ast.IsNot)) and \
+                    isinstance(ca, ast.Attribute) and isinstance(cb, ast.Attribute):
+                sa, sb = self.prog.resolve_expr_symbol(self.mod, ca), self.prog.resolve_expr_symbol(self.mod, cb)
+                if isinstance(sa, tuple) and isinstance(sb, tuple) and sa[0] == sb[0] == 'enum_member':
+                    same = sa[1] is sb[1] and sa[2] == sb[2]
+                    return ast.copy_location(ast.Constant(value=same if isinstance(op, (ast.Eq, ast.Is)) else not same), e)
+            if isinstance(ca, ast.Constant) and ca.value is None and cb is not None and not isinstance(cb, ast.Constant) and \
+                    isinstance(op, (ast.Is, ast.IsNot, ast.Eq, ast.NotEq)):
+                return ast.copy_location(ast.Constant(value=isinstance(op, (ast.IsNot, ast.NotEq))), e)
             if isinstance(cb, ast.Constant) and cb.value is None and isinstance(op, (ast.Is, ast.IsNot, ast.Eq, ast.NotEq)) and \
                     ca is not None and not isinstance(ca, ast.Constant):
                 return ast.copy_location(ast.Constant(value=isinstance(op, (ast.IsNot, ast.NotEq))), e)     # a table entry is not None
@@ -110,8 +156,8 @@ class _Folder:
             return ast.copy_location(ast.Compare(left=a, ops=e.ops, comparators=[b]), e)
         if isinstance(e, ast.IfExp):
             t = self.fold(e.test)
-            if isinstance(t, ast.Constant):
-                return self.fold(e.body if t.value else e.orelse)
+            if self.truth(t) is not None:
+                return self.fold(e.body if self.truth(t) else e.orelse)
             return ast.copy_location(ast.IfExp(test=t, body=self.fold(e.body), orelse=self.fold(e.orelse)), e)
         if isinstance(e, ast.Subscript):
             base = self.const_node(self.fold(e.value))
@@ -176,6 +222,37 @@ class _Folder:
             if g is not f and g is not None and isinstance(g, (ast.Name, ast.Attribute)):
                 e = ast.copy_location(ast.Call(func=g, args=e.args, keywords=e.keywords), e)
                 f = g
+        # a method of the same object: specialise it under the same assumptions; a single remaining `return E` is inlined
+        if isinstance(f, ast.Attribute) and isinstance(f.value, ast.Name) and f.value.id == 'self' and self.fn.cls is not None \
+                and self.depth < 4:
+            m = self.prog.lookup_method(self.fn.cls, f.attr)
+            if m is not None and not m.is_property and m.fq not in self.stack and not e.keywords and \
+                    not any(isinstance(a, ast.Starred) for a in e.args):
+                params = [a.arg for a in m.params()]
+                if not m.is_static and params[:1] == ['self']:
+                    params = params[1:]
+                if len(e.args) == len(params):
+                    binding = dict(zip(params, [self.fold(a) for a in e.args]))
+                    cenv = {k: c for k, v in binding.items() for c in [self.const_node(v)] if c is not None}
+                    sub = _Folder(self.prog, m, cenv, self.depth + 1, self.stack, self._all_assumptions())
+                    body, _l = sub.block(m.node.body)
+                    body = [b for b in body if not isinstance(b, ast.Pass)]
+                    if len(body) == 1 and isinstance(body[0], ast.Return) and body[0].value is not None:
+                        uses = {}
+                        for x in ast.walk(body[0].value):
+                            if isinstance(x, ast.Name):
+                                uses[x.id] = uses.get(x.id, 0) + 1
+                        simple = all(isinstance(v, (ast.Name, ast.Attribute, ast.Constant)) or uses.get(k, 0) <= 1
+                                     for k, v in binding.items())
+                        bound_comp = {t.id for x in ast.walk(body[0].value) if isinstance(x, ast.comprehension)
+                                      for t in ast.walk(x.target) if isinstance(t, ast.Name)}
+                        if simple and not (bound_comp & {n_.id for v in binding.values() for n_ in ast.walk(v) if isinstance(n_, ast.Name)}):
+                            class Sub(ast.NodeTransformer):
+                                def visit_Name(s_, node):
+                                    if node.id in binding and isinstance(node.ctx, ast.Load):
+                                        return copy.deepcopy(binding[node.id])
+                                    return node
+                            return ast.copy_location(Sub().visit(copy.deepcopy(body[0].value)), e)
         # helper of the package with several returns: specialise it with the constant arguments
         if isinstance(f, (ast.Name, ast.Attribute)) and self.depth < 4:
             sym = self.prog.resolve_expr_symbol(self.mod, f)
@@ -204,8 +281,8 @@ class _Folder:
                 continue
             if isinstance(st, ast.If):
                 t = self.fold(st.test)
-                if isinstance(t, ast.Constant):
-                    body, leaves = self.block(st.body if t.value else st.orelse)
+                if self.truth(t) is not None:
+                    body, leaves = self.block(st.body if self.truth(t) else st.orelse)
                     out.extend(body)
                     if leaves:
                         return out, True
@@ -235,14 +312,14 @@ class _Folder:
                 out.append(new)
                 continue
             if isinstance(st, ast.Return):
-                out.append(ast.copy_location(ast.Return(value=self.fold(st.value) if st.value is not None else None), st))
+                out.append(ast.copy_location(ast.Return(value=self.deep(st.value) if st.value is not None else None), st))
                 return out, True
             if isinstance(st, ast.Raise):
                 out.append(st)
                 return out, True
             if isinstance(st, (ast.Assign, ast.AnnAssign)) and getattr(st, 'value', None) is not None:
                 tgt = st.targets[0] if isinstance(st, ast.Assign) and len(st.targets) == 1 else getattr(st, 'target', None)
-                val = self.fold(st.value)
+                val = self.deep(st.value)
                 c = self.const_node(val)
                 if isinstance(tgt, ast.Name) and self.stored.get(tgt.id, 0) == 1 and c is not None:
                     self.env[tgt.id] = c
@@ -266,6 +343,13 @@ class _Folder:
                 continue
             out.append(self._fold_stmt_exprs(st))
         return out, False
+
+    def deep(self, e: ast.expr) -> ast.expr:
+        """fold `e` and, where the top level does not fold, everything inside it"""
+        r = self.fold(e)
+        if r is e:
+            return self._fold_args(e)
+        return r
 
     def _fold_args(self, e: ast.expr) -> ast.expr:
         """fold inside the arguments of a residual expression"""
@@ -302,7 +386,7 @@ class _Folder:
                 and self.depth < 4):
             return None
         m = self.prog.lookup_method(self.fn.cls, f.attr)
-        if m is None or m is self.fn or m.is_property:
+        if m is None or m is self.fn or m.is_property or m.fq in self.stack:
             return None
         if any(isinstance(x, ast.Return) and x.value is not None for x in ast.walk(m.node)):
             return None
@@ -315,7 +399,7 @@ class _Folder:
         if len(binding) != len(params):
             return None
         cenv = {k: c for k, v in binding.items() for c in [self.const_node(self.fold(v))] if c is not None}
-        body, _leaves = _Folder(self.prog, m, cenv, self.depth + 1).block(m.node.body)
+        body, _leaves = _Folder(self.prog, m, cenv, self.depth + 1, self.stack, self._all_assumptions()).block(m.node.body)
 
         class Sub(ast.NodeTransformer):
             def visit_Name(s, node):
@@ -326,11 +410,14 @@ class _Folder:
         return out
 
 
-def residual(prog: Program, fn: FuncInfo, bindings: Dict[str, Any], depth: int = 0) -> List[ast.stmt]:
+def residual(prog: Program, fn: FuncInfo, bindings: Dict[str, Any], depth: int = 0,
+             assume: Optional[Dict[str, Any]] = None) -> List[ast.stmt]:
     """The statements of `fn` that remain when the given locals / parameters are bound to constants (python values or
-    constant-like AST nodes)."""
+    constant-like AST nodes) and the expressions in `assume` (source text, e.g. 'self.bullet_list.mode') stand for the given
+    constants / enum members."""
     env = {k: (v if isinstance(v, ast.AST) else ast.Constant(value=v)) for k, v in bindings.items()}
-    folder = _Folder(prog, fn, env, depth)
+    asm = {k: (v if isinstance(v, ast.AST) else ast.Constant(value=v)) for k, v in (assume or {}).items()}
+    folder = _Folder(prog, fn, env, depth, (), asm)
     # locals bound by the caller are constants even though the function assigns them (e.g. `cls = get_class_value(element)`)
     body = []
     for st in fn.node.body:
